@@ -371,7 +371,7 @@ def blocks(tier, seed):
                     'every sign x exponent x mantissa with <=2 set or clear bits'))
     if not q:
         bl.append(Block('floats_all_2^32', list(range(65536)), _floats_all,
-                        'all 2^32 float32 bit patterns', nshards=256))
+                        'all 2^32 float32 bit patterns', nshards=256, backstop=3600))
     bi = boundary_ints(8 * MAX_ITEM - 8)
     bl.append(Block('int_instructions', bi if not q else bi[:len(bi)], _instr,
                     'ADD SUB MULT DIV MOD LESS LEQ on all ordered pairs of boundary ints'))
